@@ -225,6 +225,34 @@ class SuperSpeedStreamInEndpoint(Elaboratable):
             handshakes_out.endpoint_number  .eq(self._endpoint_number),
         ]
 
+        def respond_to_in_token():
+            """ Answers an IN token when we have something to send. """
+
+            # Now that we're answering, the host is polling us; it doesn't need an ERDY any more.
+            m.d.ss += erdy_required.eq(0)
+
+            # If we have a packet to send, send it.
+            with m.If(read_fill_count):
+                m.next = "SEND_PACKET"
+                m.d.ss += [
+                    last_packet_was_zlp  .eq(0)
+                ]
+
+            # Otherwise, we entered a transmit path without any data in the buffer.
+            with m.Else():
+                # ... send a ZLP...
+                m.d.comb += interface.tx_zlp.eq(1)
+
+                # ... and clear the need to follow up with one, since we've just sent a short packet.
+                m.d.ss += [
+                    read_stream_ended    .eq(0),
+                    last_packet_was_zlp  .eq(1)
+                ]
+
+                # We've now completed a packet send; so wait for it to be acknowledged.
+                m.next = "WAIT_FOR_ACK"
+
+
         with m.FSM(domain='ss'):
 
             # WAIT_FOR_DATA -- We don't yet have a full packet to transmit, so  we'll capture data
@@ -276,7 +304,12 @@ class SuperSpeedStreamInEndpoint(Elaboratable):
 
                 # ... and once that send is complete, move on to waiting for an IN token.
                 with m.If(handshakes_out.done):
+                    m.d.ss += erdy_required.eq(0)
                     m.next = "WAIT_TO_SEND"
+
+                # If the host polls us anyway, answer it.
+                with m.If(in_token_received):
+                    respond_to_in_token()
 
 
             # WAIT_TO_SEND -- we now have at least a buffer full of data to send; we'll
@@ -285,27 +318,7 @@ class SuperSpeedStreamInEndpoint(Elaboratable):
 
                 # Once we get an IN token, move to sending a packet.
                 with m.If(in_token_received):
-
-                    # If we have a packet to send, send it.
-                    with m.If(read_fill_count):
-                        m.next = "SEND_PACKET"
-                        m.d.ss += [
-                            last_packet_was_zlp  .eq(0)
-                        ]
-
-                    # Otherwise, we entered a transmit path without any data in the buffer.
-                    with m.Else():
-                        # ... send a ZLP...
-                        m.d.comb += interface.tx_zlp.eq(1)
-
-                        # ... and clear the need to follow up with one, since we've just sent a short packet.
-                        m.d.ss += [
-                            read_stream_ended    .eq(0),
-                            last_packet_was_zlp  .eq(1)
-                        ]
-
-                        # We've now completed a packet send; so wait for it to be acknowledged.
-                        m.next = "WAIT_FOR_ACK"
+                    respond_to_in_token()
 
 
             # SEND_PACKET -- we now have enough data to send _and_ have received an IN token.
